@@ -835,8 +835,9 @@ def adapter_checks_preserved(ctx):
             return ("raises",)
     orig = T.optimize
     for kind, name, f, desc, args in cases:
-        f_off = (lambda *a, _f=f, **k: _f(*a, **k))      # distinct function objects: separate adapters and caches
-        f_on = (lambda *a, _f=f, **k: _f(*a, **k))
+        # distinct function objects with the plain signature of the wrapped one: separate adapters and caches
+        mkf = (lambda g: (lambda a, b: g(a, b))) if kind == "elementwise" else (lambda g: (lambda t, axis=None: g(t, axis=axis)))
+        f_off, f_on = mkf(f), mkf(f)
         T.optimize = lambda graph, *a, **k: graph
         try:
             off = outcome(kind, f_off, desc, args)
